@@ -268,6 +268,130 @@ def task_precip(systems):
     return res
 
 
+REPLAY_POST = '''
+import itertools, math
+import numpy as np
+from chempy import Equilibrium, Species
+from chempy.equilibria import EqSystem
+import chempy._eqsys as ES
+eq_strs = %(eqs)r
+cls = %(cls)r
+ys = [%(y)s, [-40.0 + 3 * j for j in range(%(n)d)], [0.25 + 0.5 * j for j in range(%(n)d)]]
+c0 = %(c0)s
+eqs = [Equilibrium.from_string(s + "; 1") for s in eq_strs]
+keys = []
+for e in eqs:
+    for k in itertools.chain(e.reac, e.prod):
+        if k not in keys: keys.append(k)
+es = EqSystem(eqs, [Species.from_formula(k) for k in keys])
+inst = getattr(ES, cls)(es)
+params = np.array([float(v) for v in c0] + [1.0] * len(eqs))
+bad = []
+for y in ys:
+    yv = np.array([float(v) for v in y])
+    if inst.post_processor is None:
+        got, pr = yv, params
+    else:
+        got, pr = inst.post_processor(yv, params)
+    if cls == "NumSysSquare": exp = [v * v for v in yv]
+    elif cls == "NumSysLog": exp = [math.exp(v) for v in yv]
+    elif cls == "NumSysLin": exp = list(yv)
+    else:
+        exp = []
+        for j, k in enumerate(keys):
+            cand = []
+            for el, a in es.substances[k].composition.items():
+                if el == 0: continue
+                cand.append(sum(es.substances[k2].composition.get(el, 0) * params[i] for i, k2 in enumerate(keys)) / a)
+            exp.append(min(cand) * yv[j])
+    for j in range(len(keys)):
+        if abs(got[j] - exp[j]) > 1e-12 * abs(exp[j]): bad.append("y=%%s: concentration %%d reported as %%r, the residuals were formulated for %%r" %% (list(yv), j, got[j], exp[j]))
+    if list(pr) != list(params): bad.append("post_processor changed the parameter vector")
+for b in bad[:5]: print("MISMATCH", b)
+sys.exit(1 if bad else 0)
+'''
+
+
+def task_post(systems):
+    """the concentrations REPORTED for a root y of formulation X are post_processor(y): they must be the c = g(y) under which C07 proves
+    f_X(y) == f_Lin(c) (g = y^2 / exp(y) / max_conc(c0)*y / y), otherwise the reported state is not the one whose residuals vanish"""
+    import chempy._eqsys as ES
+    from vlib.zrun import uf_prover
+    from vlib.zsym import ZBackend
+
+    be = ZBackend()
+    res = dict(engine="Z", functions=[env.describe(getattr(ES, c).post_processor) for c in ("NumSysLinRel", "NumSysSquare", "NumSysLog")],
+               obligations=0, discharged=0, violations=[], inconclusive=[], queries=0, paths=0, solver_s=0.0,
+               bounds="%d systems x 4 formulations, all real y, c0 > 0" % len(systems))
+    tw = None
+    for eq_strs in systems:
+        es, Ks, keys = build(eq_strs)
+        n = len(keys)
+        y = [Real("y%d" % i) for i in range(n)]
+        c0 = [Real("c0_%d" % i) for i in range(n)]
+        assum = [v.t > 0 for v in c0] + [k.t > 0 for k in Ks]
+        params = np.array(c0 + list(Ks), dtype=object)
+        comps = [{e: a for e, a in es.substances[k].composition.items() if e != 0} for k in keys]
+        elems = sorted(set().union(*[set(d) for d in comps]))
+        tot = {e: sum(comps[i].get(e, 0) * c0[i] for i in range(n) if e in comps[i]) for e in elems}
+        for cls in ("NumSysLin", "NumSysLinRel", "NumSysSquare", "NumSysLog"):
+            inst = getattr(ES, cls)(es)
+            if cls == "NumSysLinRel":
+                real_mc = inst.max_concs
+                inst.max_concs = lambda prm, min_=min, dtype=object: real_mc(prm, min_=min_, dtype=object)  # stub: exact dtype
+
+            def fn():
+                if inst.post_processor is None:
+                    return np.array(y, dtype=object), params
+                return inst.post_processor(np.array(y, dtype=object), params)
+
+            def goal(p, twin=False):
+                if p.kind == "exc":
+                    return False
+                got, pr = p.value
+                if len(got) != n or len(pr) != len(params):
+                    return False
+                conds = [eq_term(a, b) for a, b in zip(pr, params)]
+                for j in range(n):
+                    if cls == "NumSysSquare":
+                        exp = y[j] * y[j]
+                    elif cls == "NumSysLog":
+                        exp = be.exp(y[j])
+                    elif cls == "NumSysLin":
+                        exp = y[j]
+                    else:
+                        cand = [lift(tot[e] / a) for e, a in comps[j].items()]
+                        mn = cand[0]
+                        for c_ in cand[1:]:
+                            mn = z3.If(c_ < mn, c_, mn)
+                        exp = SymNum(mn) * y[j]
+                    if twin:
+                        exp = exp + 1
+                    conds.append(eq_term(got[j], exp))
+                return z3.And(*conds)
+
+            o = explore_and_prove(fn, assum, goal, max_paths=5000, deadline_s=120, prover=uf_prover)
+            res["obligations"] += o.obligations
+            res["discharged"] += o.discharged
+            res["queries"] += o.queries
+            res["paths"] += o.paths
+            res["solver_s"] += o.solver_s
+            res["inconclusive"] += o.inconclusive
+            for p, m, g in o.failed[:1]:
+                yv = [float(v) for v in concretize(m, y)] if m is not None else [0.5] * n
+                cv = [float(v) for v in concretize(m, c0)] if m is not None else [1.0] * n
+                res["violations"].append(dict(key="post:%s:%s" % (cls, p.kind), soft=True,
+                                              desc="%s %s.post_processor(y=%s, c0=%s) -> %r" % (eq_strs, cls, yv, cv, p.value),
+                                              replay_src=REPLAY_POST % dict(eqs=eq_strs, cls=cls, y=repr(yv), c0=repr(cv), n=n)))
+            if tw is None and cls == "NumSysSquare":
+                ot = explore_and_prove(fn, assum, lambda p: goal(p, True), max_paths=5000, deadline_s=60, max_fail=1, prover=uf_prover)
+                tw = twin_verdict(ot)
+    res["twin"] = tw
+    res["sample"] = {"system": systems[0], "y": "symbolic reals", "c0": "symbolic > 0", "classes": ["NumSysLin", "NumSysLinRel", "NumSysSquare", "NumSysLog"]}
+    res["status"] = "violation" if res["violations"] else ("inconclusive" if res["inconclusive"] else "discharged")
+    return res
+
+
 def tasks(tier, seed):
     maxn = 5 if tier == "quick" else 7
     hom = [s for s in gen.eq_systems(tier, seed) if len(build(s)[2]) <= maxn][: (8 if tier == "quick" else 30)]
@@ -284,4 +408,8 @@ def tasks(tier, seed):
         ch = pre[i::4]
         if ch:
             ts.append(dict(id="C08.precip.%02d" % i, fn="task_precip", kwargs=dict(systems=ch), timeout=1200))
+    for i in range(2):
+        ch = hom[i::2]
+        if ch:
+            ts.append(dict(id="C08.post.%02d" % i, fn="task_post", kwargs=dict(systems=ch), timeout=1200))
     return ts
